@@ -147,7 +147,7 @@ theorem C12_group_saturated (s : Conv.St) (h : Nat) (g : Group) (c : Nat) (stk :
   have h2 : ¬ (g.count - 1 < 2^31) := by omega
   unfold offCpuGroup offWeight
   rw [if_pos h1]
-  simp [i32OrZero, h2]
+  simp [i32OrZero, h2, List.filter_cons, USample.synth]
 
 /-- `Conv.step` applies the thread-level functions to the thread object it looks up -/
 theorem C12_conv_step_switchIn (s : Conv.St) (pid tid t : Nat) (h0 : tid ≠ 0) :
